@@ -293,6 +293,16 @@ func init() {
 				x.Outcome(got.Short())
 				c10Check(x, prog, nil)
 			}},
+			{Name: "self-referential-updates", Quick: []int{1}, ShardDepth: -1, Run: func(c *explore.Chooser, x *explore.Ctx, _ int) {
+				// an update that refers to the object being updated must not make the result contain itself
+				progs := []string{`$ ~> |$|{"self": $}|`, `$ ~> |**|{"me": $}|`, `$ ~> |a|{"up": [$, 1]}|`, `$ ~> |$|{"self": {"in": $}}|`, `$ ~> |$|{"self": $}| ~> |$|{"again": $}|`,
+					`$count($string($ ~> |$|{"self": $}|)) > 0`}
+				docs := []interface{}{map[string]interface{}{"a": map[string]interface{}{"b": 1.0}}, map[string]interface{}{"a": []interface{}{map[string]interface{}{"b": 1.0}, map[string]interface{}{"b": 2.0}}}}
+				p := progs[c.Choose(len(progs))]
+				d := docs[c.Choose(len(docs))]
+				c.Done()
+				c10Check(x, p, d)
+			}},
 			{Name: "numeric-edges", Quick: []int{1}, Run: func(c *explore.Chooser, x *explore.Ctx, _ int) {
 				shape := c10NumShapes[c.Choose(len(c10NumShapes))]
 				a := c10EdgeNumbers[c.Choose(len(c10EdgeNumbers))]
